@@ -115,7 +115,9 @@ impl BuildOptimiser {
         // factor taking kt_start to kt_finish gets applied.
         let cooling_steps = u64::max(1, self.steps / inner_steps);
         let kt_ratio = match (self.kt_ratio, self.kt_finish) {
-            (Some(ratio), _) => 1. - ratio,
+            // Reducing the temperature by more than all of it leaves a temperature of zero, a
+            // negative factor would make the temperature negative and accept every move.
+            (Some(ratio), _) => f64::max(1. - ratio, 0.),
             // A zero temperature stays zero, there is no finite factor taking it anywhere else
             (None, Some(_)) if self.kt_start == 0. => 1.,
             (None, Some(finish)) => {
